@@ -68,6 +68,102 @@ def case(rng: Any, ctx: Ctx, index: int) -> None:
     LOG.sample({'expr': dense.describe(op), 'shape': None if mat is None else list(np.shape(mat))})
 
 
+def matrix_complex(op: Any) -> np.ndarray:
+    """Reference dense form for complex-valued operators: mv on the (real) basis vectors, complex128."""
+    s = op.in_structure()
+    n = dense.size_of(s)
+    cols = []
+    for j in range(n):
+        e = np.zeros(n)
+        e[j] = 1
+        y = op.mv(dense.unflatten_like(s, e))
+        cols.append(np.concatenate([np.asarray(l, dtype=np.complex128).ravel() for l in jax.tree.leaves(y)]))
+    return np.stack(cols, axis=1)
+
+
+def case_complex(rng: Any, ctx: Ctx, index: int) -> None:
+    """Complex-valued operators (the transpose is the plain transpose, not the adjoint)."""
+    import jax.numpy as jnp
+
+    from furax._base.core import HomothetyOperator
+    from furax._base.dense import DenseBlockDiagonalOperator
+    from furax._base.diagonal import BroadcastDiagonalOperator, DiagonalOperator
+    from furax._base.indices import IndexOperator
+    cdt = np.complex128 if ctx.x64 and rng.integers(2) else np.complex64
+    n = int(rng.integers(2, 5))
+    s = gen.S((n,), cdt)
+
+    def cvals(shape: tuple[int, ...]) -> Any:
+        return jnp.asarray((rng.integers(-4, 5, size=shape) + 1j * rng.integers(-4, 5, size=shape)) / 2, dtype=cdt)
+
+    kind = gen.pick(rng, ['homothety', 'diagonal', 'broadcast', 'dense', 'index', 'blocks-real-to-complex'])
+    if kind == 'blocks-real-to-complex':
+        # complex blocks acting on real inputs: the input dtype is narrower (and of another kind) than the output dtype
+        from furax._base.blocks import BlockColumnOperator, BlockDiagonalOperator, BlockRowOperator
+        rdt = np.float64 if cdt == np.complex128 else np.float32
+        sr = gen.S((n,), rdt)
+        m = int(rng.integers(1, 4))
+        d1, d2 = (DenseBlockDiagonalOperator(cvals((m, n)), sr, 'ij,j->i') for _ in range(2))
+        which = gen.pick(rng, ['row', 'diag', 'col'])
+        op = {'row': BlockRowOperator, 'diag': BlockDiagonalOperator, 'col': BlockColumnOperator}[which]([d1, d2] if rng.integers(2) else {'b': d1, 'a': d2})
+        LOG.case_key(f'complex:{kind}:{which}:{np.dtype(cdt).name}', True)
+        LOG.count('C04.complex', f'{kind}:{which}')
+        _judge_complex(op)
+        return
+    if kind == 'homothety':
+        base = HomothetyOperator(cvals(()), s)
+    elif kind == 'diagonal':
+        base = DiagonalOperator(cvals((n,)), in_structure=s)
+    elif kind == 'broadcast':
+        base = BroadcastDiagonalOperator(cvals((2, n)), axis_destination=(-2, -1), in_structure=s)
+    elif kind == 'dense':
+        base = DenseBlockDiagonalOperator(cvals((int(rng.integers(1, 4)), n)), s, 'ij,j->i')
+    else:
+        idx = jnp.asarray(rng.integers(0, n, size=int(rng.integers(1, n + 2))), dtype=jnp.int32)
+        base = IndexOperator(idx, in_structure=s)
+    variant = gen.pick(rng, ['A', 'A.T', 'A.T@A', 'A+A2', 'A.T.T'])
+    if variant == 'A':
+        op = base
+    elif variant == 'A.T':
+        op = base.T
+    elif variant == 'A.T.T':
+        op = base.T.T
+    elif variant == 'A.T@A':
+        op = base.T @ base
+    else:
+        op = base + base if kind == 'index' else base + type(base)(*([cvals(np.shape(base.value)), s] if kind == 'homothety' else [])) if kind == 'homothety' else base + base
+    LOG.case_key(f'complex:{kind}:{variant}:{np.dtype(cdt).name}', True)
+    LOG.count('C04.complex', f'{kind}:{variant}')
+
+    _judge_complex(op)
+
+
+def _judge_complex(op: Any) -> None:
+    def judge() -> None:
+        ref = matrix_complex(op)
+        for impl, f in (('override', lambda: op.as_matrix()), ('generic', lambda: AbstractLinearOperator.as_matrix(op))):
+            got = np.asarray(f(), dtype=np.complex128)
+            LOG.evaluated('C04.complex')
+            if got.shape != ref.shape or not np.allclose(got, ref, rtol=1e-5, atol=1e-5):
+                LOG.violation('C04', 'C04.complex', f'{type(op).__name__}.as_matrix/complex/{impl}',
+                              'as_matrix differs from mv on the basis vectors for a complex-valued operator', expr=dense.describe(op),
+                              ref=np.array2string(ref, precision=3, threshold=40), got=np.array2string(got, precision=3, threshold=40))
+                return
+    from ..core import quiet
+    with quiet():
+        try:
+            judge()
+        except Exception as exc:  # noqa: BLE001
+            LOG.skipped('C04.complex', f'oracle-error:{type(exc).__name__}:{str(exc)[:80]}')
+
+
+def case_mix(rng: Any, ctx: Ctx, index: int) -> None:
+    if index % 8 == 7:
+        case_complex(rng, ctx, index // 8)
+    else:
+        case(rng, ctx, index - index // 8)
+
+
 def run(ctx: Ctx) -> None:
     enable('asmatrix')
-    drive(ctx, case, 1600, 16000)
+    drive(ctx, case_mix, 1800, 18000)
